@@ -6,6 +6,7 @@
 (*   "body"  h(S1).  w(X,Y,Z) :- h(S2).   ?- w(X,Y,Z).       the argument is built by the compiled body                  *)
 (*   "rec"   h(S1).  w(X,Y,Z) :- X = S2, h(X).  ?- w(X,Y,Z). the argument arrives as a value bound at run time           *)
 (*   "two"   t(S1,S1').  ?- t(S2,S2').   two arguments sharing variables (a sub-universe)                                *)
+(*   "disj"  h(S1) :- pr(a) ; pr(b) ; pr(S1).  ?- h(S2).   the head in front of a body compiled once per alternative     *)
 (* Engine.tla predicts the events (call ports, answers as bindings of X, Y, Z); the replayer compares.                   *)
 EXTENDS Engine, Json
 X == V(1)
@@ -37,7 +38,11 @@ Prog(m, s1, s2) ==
     [] m = "rec"  -> << [key |-> <<"h", 1>>, dyn |-> FALSE, cls |-> MkCls(<<Cl(H(s1[1]), TrueA)>>, 0)],
                         [key |-> <<"w", 3>>, dyn |-> FALSE, cls |-> MkCls(<<Cl(W, Conj2(C("=", <<X, s2[1]>>), H(X)))>>, 10)] >>
     [] m = "two"  -> << [key |-> <<"t", 2>>, dyn |-> FALSE, cls |-> MkCls(<<Cl(T2(s1[1], s1[2]), TrueA)>>, 0)] >>
-Query(m, s2) == CASE m = "head" -> H(s2[1]) [] m = "two" -> T2(s2[1], s2[2]) [] OTHER -> W
+    \* "disj"  h(S1) :- pr(a) ; pr(b) ; pr(S1).   every head shape (every length of head code) in front of a body that is compiled once per alternative
+    [] m = "disj" -> << [key |-> <<"h", 1>>, dyn |-> FALSE,
+                         cls |-> MkCls(<<Cl(H(s1[1]), C(";", <<C("pr", <<a>>), C(";", <<C("pr", <<b>>), C("pr", <<s1[1]>>)>>)>>))>>, 0)],
+                        [key |-> <<"pr", 1>>, dyn |-> FALSE, cls |-> MkCls(<<Cl(C("pr", <<X>>), TrueA)>>, 20)] >>
+Query(m, s2) == CASE m \in {"head", "disj"} -> H(s2[1]) [] m = "two" -> T2(s2[1], s2[2]) [] OTHER -> W
 ArgTuples(m) == IF m = "two" THEN Small \X Small ELSE { <<s>> : s \in Shapes }
 
 VARIABLES st, hist, mode, s1, s2
